@@ -31,7 +31,7 @@ INVARIANTS = ["HeldOK", "Once", "SettledAtReturn", "Deterministic", "DrySubmitsN
               "NoErrorCached", "DryPredicts"]
 
 # deviation switches of Scheduler.tla that describe the code as it is now
-DEVS = "CONSTANT DevRefork = FALSE\nCONSTANT DevForkAtExec = TRUE\n"
+DEVS = "CONSTANT DevRefork = FALSE\nCONSTANT DevDoubleRelease = FALSE\nCONSTANT DevForkAtExec = TRUE\n"
 
 RUN = {"k": "run", "mode": "real", "cache": True}
 DRY = {"k": "run", "mode": "dry", "cache": True}
@@ -106,6 +106,15 @@ def curated_programs() -> list[dict]:
                          "leaf": {"units": {}, "vers": [_t("leaf", 1)]},
                          "use": {"units": {}, "h": 1, "vers": [_t("leaf", 4)]}},
                "plan": [RUN]})
+    # 9. a job with limits whose child fails after the job's own function returned (its units must be
+    #    released once, not again when the failure propagates), next to siblings that want the unit
+    ps.append({"ns": "cur9", "res": ["r"], "limits": {"r": 1}, "root": {"t": "main", "arg": 0},
+               "tasks": {"main": {"units": {}, "vers": [_t("calls", 0, [_c("mid", "c", 1), _c("leaf", "c", 2),
+                                                                     _c("leaf", "c", 3), _c("leaf", "c", 4)])]},
+                         "mid": {"units": {"r": 1}, "vers": [_t("calls", 0, [_c("bad", "c", 9)])]},
+                         "leaf": {"units": {"r": 1}, "vers": [_t("leaf", 1)]},
+                         "bad": {"units": {"r": 1}, "vers": [_t("fail"), _t("leaf", 3)]}},
+               "plan": [RUN]})
     return [progen.normalize(p) for p in ps]
 
 
@@ -122,12 +131,12 @@ def make_programs(ctx: Ctx, n_random: int, tag: str) -> list[dict]:
 # TLC on the as-built model
 # ------------------------------------------------------------------------------------------------
 def model_check(ctx: Ctx, progs: list[dict], dev: bool = True, invariants=None, hang_report=True,
-                workers="auto", timeout=1500) -> TLCResult:
+                workers="auto", timeout=1500, devs: Optional[str] = None) -> TLCResult:
     f = ctx.tmp(f"progs_{len(progs)}_{id(progs) % 9973}.json")
     f.write_text(json.dumps(progs))
     inv = list(INVARIANTS if invariants is None else invariants)
     cfg = "SPECIFICATION Spec\nCONSTANT DevChoices = %s\n%sVIEW View\n" % (
-        "{TRUE, FALSE}" if dev == "both" else "{TRUE}" if dev else "{FALSE}", DEVS)
+        "{TRUE, FALSE}" if dev == "both" else "{TRUE}" if dev else "{FALSE}", devs or DEVS)
     cfg += "".join(f"INVARIANT {i}\n" for i in inv)
     if hang_report:
         cfg += "INVARIANT HangReport\nINVARIANT ForkReport\n"
@@ -493,7 +502,7 @@ def suite(ctx: Ctx, on: list[str], n_random_progs: int, n_sim: int, n_random_his
         if why.startswith("nohang:quiescent") and m["hang_key"]:
             key = m["hang_key"]
             stats["hung_impl"] += 1
-        if why.startswith("determ:call-graph") and m["pi"] in forkdev:
+        if why.startswith("callgraph:") and m["pi"] in forkdev:
             # explained by the as-built deviation DevForkAtExec (TLC reports the program)
             key = "handle-fork-order"
         ev = traces[i]["evs"][pos - 1] if pos - 1 < len(traces[i]["evs"]) else None
